@@ -34,7 +34,7 @@ def generate(tier, rng):
     # (b) tier-level mutators
     for _ in range(1500 if tier == "quick" else 40000):
         kind = "I" if rng.random() < 0.7 else "P"
-        t = gen.random_itier(rng, tmax=30, maxn=5) if kind == "I" else gen.random_ptier(rng, tmax=30, maxn=5)
+        t = gen.random_itier(rng, tmax=30, maxn=5, long_p=0.015) if kind == "I" else gen.random_ptier(rng, tmax=30, maxn=5, long_p=0.015)
         if rng.random() < 0.6:
             if kind == "I":
                 if t["entries"] and rng.random() < 0.7:
